@@ -3,6 +3,8 @@ of states and have TLC validate every record against the specification."""
 from __future__ import annotations
 
 import itertools
+
+import numpy as np
 import json
 import math
 import os
@@ -186,8 +188,6 @@ def make_record(rec_id, st_json, comps, space, rew=None, term=None, actions=None
             if seeds is None:
                 gen = rngtools.enumerate_outcomes(one, limit=enum_limit)
             else:
-                import numpy as np
-
                 gen = ((one(np.random.default_rng(s)), None) for s in seeds)
                 full = False
             for (nxt, r, d), _script in gen:
